@@ -286,7 +286,7 @@ impl Check for BondingHistory {
     }
     fn strategy(&self, tier: Tier) -> BoxedStrategy<Case> {
         let max_ops = tier.pick(40usize, 120usize);
-        (
+        let free_histories = (
             prop_oneof![Just(1_000_000_000u64), Just(3_600_000_000_000), Just(DAY_NS), Just(14 * DAY_NS)],
             prop::collection::vec(op(), 1..max_ops),
         )
@@ -295,7 +295,37 @@ impl Check for BondingHistory {
                 ops.insert(0, Op::NewEpoch { caller: 0 });
                 Case { period_ns, ops }
             })
-            .boxed()
+            .boxed();
+        // directed shape: one address piles up more unbonding records of one denom than one page of the
+        // contract's listings holds (30), in different blocks, lets some or all of them mature and
+        // withdraws repeatedly
+        let many = (
+            prop_oneof![Just(1_000_000_000u64), Just(3_600_000_000_000)],
+            0u8..4,
+            0u8..2,
+            31usize..38,
+            prop_oneof![Just(Dt::Period), Just(Dt::PeriodPlus1), Just(Dt::PeriodMinus1), Just(Dt::Day)],
+            prop::collection::vec(op(), 0..8),
+        )
+            .prop_map(|(period_ns, user, denom, n, wait, tail)| {
+                let mut ops = vec![
+                    Op::NewEpoch { caller: 0 },
+                    Op::Bond { user, denom, amount: Uint128::new(1u128 << 40), funds: FundsKind::Exact },
+                ];
+                for i in 0..n {
+                    ops.push(Op::Unbond { user, denom, k: 1 + (i as u16 % 5), pick: None });
+                    ops.push(Op::Advance { dt: Dt::OneNs });
+                }
+                ops.push(Op::Advance { dt: wait });
+                ops.push(Op::CatchUpEpochs);
+                ops.push(Op::Withdraw { user, denom, pick: None });
+                ops.push(Op::Withdraw { user, denom, pick: None });
+                ops.extend(tail);
+                Case { period_ns, ops }
+            })
+            .boxed();
+        let free = free_histories;
+        prop_oneof![14 => free, 1 => many].boxed()
     }
     fn cases(&self, tier: Tier) -> u32 {
         tier.pick(20_000, 1_000_000)
